@@ -94,8 +94,8 @@ Definition opt_bytes (o : option bytes) : bytes := match o with Some b => b | No
 (* ^\d{3} ([245]\.\d{1,3}\.\d{1,3})\b   — the repaired code: only at the start of the reply text *)
 Definition esc_anchored (s : bytes) : bytes :=
   match s with
-  | a :: b :: c :: 32 :: r =>
-      if is_digit a && is_digit b && is_digit c then opt_bytes (esc_here r) else []
+  | a :: b :: c :: sp :: r =>
+      if is_digit a && is_digit b && is_digit c && (sp =? 32) then opt_bytes (esc_here r) else []
   | _ => []
   end.
 
